@@ -1215,6 +1215,37 @@ def _tree_job(job):
     return st.pack()
 
 
+def _stepper_job(job):
+    """Single-step through the whole run, and schedule an event at every pause position."""
+    (driver, specs, modes) = job
+    signal.signal(signal.SIGALRM, _on_alarm)
+    st = Stats()
+    for spec in specs:
+        model = make_model(spec)
+        N = CACHE.ref(model, ()).N
+        d2 = model.params["B"]["I"]
+        scripts = [(("S", 1),) * (N + 1)]
+        for k in range(0, N + 1):
+            scripts.append((("S", 1),) * k + (("I", 0),))
+            scripts.append((("S", 1),) * k + (("I", d2),) + (("S", 1),) * 2)
+        for mode in modes:
+            for sc in scripts:
+                visit(model, mode, sc, st, driver, "stepper")
+    return st.pack()
+
+
+def stepper_driver(run, seed, name, specs, modes, bounds, nchunks=128):
+    t0 = time.time()
+    d = run.driver(name)
+    d.bounds.setdefault("parts", []).append(dict(
+        bounds, models=len(specs), modes=modes,
+        scripts="S1^(N+1); S1^k I(0); S1^k I(d) S1 S1 for every k in 0..N (N = deliveries of the model)"))
+    jobs = [(name, ch, modes) for ch in chunked(specs, nchunks)]
+    res = pmap(_stepper_job, rotate(jobs, seed), ordered=False)
+    collect(run, d, res, t0)
+    return d
+
+
 def _mode_job(job):
     (driver, specs) = job
     signal.signal(signal.SIGALRM, _on_alarm)
@@ -1387,6 +1418,11 @@ def plans(tier):
                   "every 2-event program (8 behaviours, 2 targets); every single call of the 19-symbol alphabet"))
         P.append(("scripts-programs-wide", "scripts", p2, ["control"], "pause", 1, False,
                   "every 2-event program (24 behaviours); every single pause/step/resume/hook-pause call"))
+    # ---- stepper: pause at EVERY position of the run, schedule while paused at every position
+    P.append(("scripts-stepper", "stepper", p1b + (p2s1 if q else p2) + deep, ["control"], None, None, False,
+              "every 1-event program, every 2-event program (" + ("8" if q else "24") + "-behaviour alphabet) x end{None,2}, "
+              "6 hand-picked programs"))
+    P.append(("scripts-stepper", "stepper", lib, ["control", "all"], None, None, False, "2 pipelines, 3 generator/future models"))
     # ---- deep: full script trees on hand-picked programs
     if q:
         P.append(("scripts-programs-deep", "scripts", deep_alt[:3], ["control"], "A", 4, True,
@@ -1470,6 +1506,8 @@ def main(tier, seed, only=None):
             continue
         if kind == "modes":
             mode_driver(run, seed, name, specs, {"note": note}, nchunks=128)
+        elif kind == "stepper":
+            stepper_driver(run, seed, name, specs, modes, {"note": note}, nchunks=256)
         else:
             script_driver(run, seed, name, specs, modes, aid, L, split, {"note": note}, nchunks=256)
     # re-run every violating case from its replay data before reporting it
